@@ -41,6 +41,8 @@ type Val struct {
 
 type Case struct {
 	AES  bool  `json:"aes"`
+	// KeyOff (with AES): key installed, crypto mode switched off again: cleartext layout on a keyed stream
+	KeyOff bool `json:"key_off,omitempty"`
 	Code bool  `json:"code"` // use Code* wrappers instead of Put*/Get*
 	Vals []Val `json:"vals"`
 }
@@ -236,14 +238,25 @@ type stats struct {
 func runCase(c Case) (string, stats) {
 	var st stats
 	key := kit.Pattern(32, 4242)
+	enc := c.AES && !c.KeyOff // frames are protected and strings carry their length prefix
+	keyed := func(s *stream.Stream) error {
+		if !c.AES {
+			return nil
+		}
+		if err := s.SetSymmetricKey(key); err != nil {
+			return err
+		}
+		if c.KeyOff {
+			s.SetCryptoMode(false)
+		}
+		return nil
+	}
 	// --- encode with the real sender ---
 	ca := kit.NewMemConn()
 	ca.RecordWrites = true
 	A := stream.NewStream(ca)
-	if c.AES {
-		if err := A.SetSymmetricKey(key); err != nil {
-			return err.Error(), st
-		}
+	if err := keyed(A); err != nil {
+		return err.Error(), st
 	}
 	msg := message.NewMessageForStream(A)
 	var want []byte
@@ -252,7 +265,7 @@ func runCase(c Case) (string, stats) {
 		if err := put(msg, v, c.Code); err != nil {
 			return fmt.Sprintf("encoding value %d (%s) failed: %v", i, v.T, err), st
 		}
-		want = append(want, v.ref(c.AES)...)
+		want = append(want, v.ref(enc)...)
 		bounds = append(bounds, len(want))
 	}
 	if err := msg.FinishMessage(kit.Bg); err != nil {
@@ -261,7 +274,7 @@ func runCase(c Case) (string, stats) {
 	// --- oracle 1: layout ---
 	var got []byte
 	var rd *kit.RefDir
-	if c.AES {
+	if enc {
 		rd, _ = kit.NewRefDir(key)
 	}
 	zero := make([]byte, 32)
@@ -272,7 +285,7 @@ func runCase(c Case) (string, stats) {
 			return "sender wrote something that is not one frame per write", st
 		}
 		nframes++
-		if c.AES {
+		if enc {
 			pt, err := rd.Open(fr[0], zero, zero)
 			if err != nil {
 				return "reference codec cannot open the sender's frame: " + err.Error(), st
@@ -290,10 +303,10 @@ func runCase(c Case) (string, stats) {
 	cb := kit.NewMemConn()
 	B := stream.NewStream(cb)
 	var hs *kit.RefDir
-	if c.AES {
-		if err := B.SetSymmetricKey(key); err != nil {
-			return err.Error(), st
-		}
+	if err := keyed(B); err != nil {
+		return err.Error(), st
+	}
+	if enc {
 		hs, _ = kit.NewRefDir(key)
 		copy(hs.BaseIV[:], kit.Pattern(16, uint32(len(want))))
 		hs.HaveIV = true
@@ -303,14 +316,14 @@ func runCase(c Case) (string, stats) {
 	frame := func(end byte, p []byte) []byte {
 		var out []byte
 		for len(p) > 1000000 {
-			if c.AES {
+			if enc {
 				out = append(out, hs.Seal(0, p[:1000000], zero, zero)...)
 			} else {
 				out = append(out, kit.BuildFrame(0, p[:1000000])...)
 			}
 			p = p[1000000:]
 		}
-		if c.AES {
+		if enc {
 			return append(out, hs.Seal(end, p, zero, zero)...)
 		}
 		return append(out, kit.BuildFrame(end, p)...)
@@ -334,9 +347,7 @@ func runCase(c Case) (string, stats) {
 	{
 		cc := kit.NewMemConn()
 		C := stream.NewStream(cc)
-		if c.AES {
-			_ = C.SetSymmetricKey(key)
-		}
+		_ = keyed(C)
 		for _, w := range ca.WriteLog {
 			cc.Feed(w)
 		}
@@ -492,6 +503,7 @@ func genVal(t *rapid.T, allowHuge bool) Val {
 
 func genCase(t *rapid.T) Case {
 	c := Case{AES: rapid.Bool().Draw(t, "aes"), Code: rapid.IntRange(0, 3).Draw(t, "code") == 0}
+	c.KeyOff = c.AES && rapid.IntRange(0, 3).Draw(t, "keyoff") == 0
 	n := rapid.IntRange(1, 12).Draw(t, "n")
 	huge := rapid.IntRange(0, 39).Draw(t, "hugecase") == 0
 	for i := 0; i < n; i++ {
